@@ -5,7 +5,7 @@ from pcv import core, capio, textgen
 
 P = "PcVerif.Props.C14."
 THEOREMS = [P + t for t in ["dfxp_lang_fallback", "dfxp_default_lang_pinned", "dfxp_languages_first_appearance", "primary_syncs_sorted"]]
-CODES = ["en-US", "fr-FR", "de", "es-419", "en", "pt-BR"]
+CODES = ["en-US", "fr-FR", "de", "es-419", "en", "pt-BR", "fi", "fil", "es", "est"]   # also codes that are plain string prefixes of another (fi / fil)
 
 
 def make(tier, seed):
